@@ -3,6 +3,7 @@
 package commitlog
 
 import (
+	"strings"
 	"testing"
 
 	"github.com/liftbridge-io/liftbridge/server/vfutil"
@@ -52,7 +53,13 @@ func genC01(t *rapid.T) clCase {
 	for i := 0; i < n; i++ {
 		var op clOp
 		switch rapid.SampledFrom([]string{"append", "append", "append", "append", "append", "appendset", "appendset",
-			"truncate", "truncate", "reopen", "sethw", "probe", "probe"}).Draw(t, "op") {
+			"truncate", "truncate", "reopen", "sethw", "probe", "probe", "newreader", "read", "read", "sethw2"}).Draw(t, "op") {
+		case "newreader": // a long-lived committed reader, parked across later operations
+			op = clOp{Op: "newreader", Cls: rapid.IntRange(0, 5).Draw(t, "cls"), Sel: rapid.IntRange(0, 1000).Draw(t, "sel")}
+		case "read":
+			op = clOp{Op: "read", Sel: rapid.IntRange(0, 7).Draw(t, "reader"), N: rapid.IntRange(1, 5).Draw(t, "n")}
+		case "sethw2":
+			op = clOp{Op: "sethw2", Cls: rapid.IntRange(0, 2).Draw(t, "cls"), Sel: rapid.IntRange(0, 1000).Draw(t, "sel")}
 		case "append":
 			op = clOp{Op: "append", Msgs: genBatch(t, false, 8)}
 		case "appendset":
@@ -76,7 +83,23 @@ func genC01(t *rapid.T) clCase {
 
 func runC01(c clCase, o *vfutil.Obs) *vfutil.Failure {
 	var xx *clExec
-	f := runCL(c, o, func(x *clExec, op clOp) (*vfutil.Failure, bool) { xx = x; return nil, false })
+	var readers []*c03Reader
+	nt := false
+	hook := c03Hook(&readers, &nt, o)
+	f := runCL(c, o, func(x *clExec, op clOp) (*vfutil.Failure, bool) {
+		xx = x
+		switch op.Op {
+		case "truncate", "reopen":
+			// parked readers do not survive a truncation below them or a reopen
+			readers = nil
+			return nil, false
+		}
+		f, handled := hook(x, op)
+		if f != nil && strings.HasPrefix(f.Signature, "C03/") {
+			f.Signature = "C01/parked-committed-reader/" + strings.TrimPrefix(f.Signature, "C03/")
+		}
+		return f, handled
+	})
 	if xx != nil && xx.sawRoll && xx.ntDetail {
 		o.NonTrivial()
 	}
